@@ -25,13 +25,20 @@ Theorem C03_recombination_uses_next_charge :
 Proof. exact recombination_formula. Qed.
 Print Assumptions C03_recombination_uses_next_charge.
 
-(* (1/4pi) n_rec sum over the donors of n_d PEC_d(n_e, T_e, T_d), for a composition of any length *)
+(* (1/4pi) n_rec sum over the donors of n_d PEC_d(n_e, T_e, T_d), for a composition of any length; a donor term
+   is n_d PEC_d for n_d > 0 and nothing for n_d <= 0 (second and third conjunct) *)
 Theorem C03_thermalcx_formula :
   forall P l ne te comp rcv,
   comp_get comp (l_elem l) (l_charge l + 1) = Some rcv -> 0 < ne -> 0 < te -> 0 < s_dens rcv ->
   exists r, thermalcx_radiance P l ne te comp = Emit r /\
-            r == k4pi * s_dens rcv * Qsum (map (fun d => s_dens d * tcx_coef P l ne te d) (donors rcv comp)).
-Proof. exact thermalcx_formula. Qed.
+            r == k4pi * s_dens rcv * Qsum (map (tcx_term P l ne te) (donors rcv comp)) /\
+  (forall d, 0 < s_dens d -> tcx_term P l ne te d == s_dens d * tcx_coef P l ne te d) /\
+  (forall d, s_dens d <= 0 -> tcx_term P l ne te d == 0).
+Proof.
+  intros P l ne te comp rcv G H1 H2 H3.
+  destruct (thermalcx_formula P l ne te comp rcv G H1 H2 H3) as [r [E R]].
+  exists r; repeat split; [exact E|exact R|intros; apply tcx_term_pos; assumption|intros; apply tcx_term_zero; assumption].
+Qed.
 Print Assumptions C03_thermalcx_formula.
 
 (* eligible donors: every species of the composition except the receiver and bare nuclei *)
@@ -158,26 +165,14 @@ Proof.
 Qed.
 Print Assumptions C03_nonneg.
 
-(* thermal CX: non-negative only if, in addition, no donor density is negative (the code has no donor guard).
-   Partial with respect to the property text, which quantifies over negative densities too: see the next theorem. *)
-Theorem C03_thermalcx_nonneg_partial :
+(* thermal CX: never negative for non-negative coefficients, for densities and temperatures of any sign
+   (donors of non-positive density are skipped) *)
+Theorem C03_thermalcx_nonneg :
   forall P l ne te comp,
   (forall de dc re rc t a b c, 0 <= tcx_pec P de dc re rc t a b c) ->
-  (forall d, In d comp -> 0 <= s_dens d) ->
   0 <= emitted (thermalcx_radiance P l ne te comp).
 Proof. exact thermalcx_nonneg. Qed.
-Print Assumptions C03_thermalcx_nonneg_partial.
-
-(* record of the finding: with all coefficients non-negative, a negative donor density makes the
-   emission of the (faithfully modelled) current code negative *)
-Theorem C03_thermalcx_negative_donor_refuted :
-  exists P l ne te comp,
-  (forall de dc re rc t a b c, 0 <= tcx_pec P de dc re rc t a b c) /\
-  emitted (thermalcx_radiance P l ne te comp) < 0.
-Proof.
-  exists refute_P, (mkLine 4 5 0), 1, 1, refute_comp. exact thermalcx_negative_donor_refuted.
-Qed.
-Print Assumptions C03_thermalcx_negative_donor_refuted.
+Print Assumptions C03_thermalcx_nonneg.
 
 (* linear in each ion or neutral density the emission involves (on the positive side of the guards);
    the coefficient on the right never mentions n *)
@@ -193,7 +188,7 @@ Theorem C03_linear_in_density :
      == n * (k4pi * Qsum (map (tcx_term P l ne te) (donors rcv comp)))) /\
   (forall P l ne te comp rcv de dc n,
      comp_get comp (l_elem l) (l_charge l + 1) = Some rcv -> key_eqb de dc rcv = false ->
-     0 < ne -> 0 < te -> 0 < s_dens rcv ->
+     0 < ne -> 0 < te -> 0 < s_dens rcv -> 0 < n ->
      emitted (thermalcx_radiance P l ne te (upd_dens de dc n comp)) ==
        k4pi * s_dens rcv * Qsum (map (tcx_term P l ne te) (filter (fun d => negb (key_eqb de dc d)) (donors rcv comp)))
      + n * (k4pi * s_dens rcv * Qsum (map (tcx_coef P l ne te) (filter (key_eqb de dc) (donors rcv comp))))) /\
